@@ -18,7 +18,7 @@ fails=$(go test -vet=off -count=1 ./... 2>&1 | grep -E "^--- FAIL" | grep -v Tes
 res="$res suite_extra_fails=[${fails}]"
 cp "$SRC/demo_test.go" $WT/zz_demo_test.go
 if go test -vet=off -count=1 -run "TestSeeded_${ID}" . >/tmp/demo1.log 2>&1; then res="$res demo_with=PASS(!)"; else res="$res demo_with=fail"; fi
-git stash -q 2>/dev/null; git checkout -q -- . 2>/dev/null
+git checkout -q -- . 2>/dev/null
 git apply -R "$SRC/patch.diff" 2>/dev/null
 git checkout -q -- . ; 
 if go test -vet=off -count=1 -run "TestSeeded_${ID}" . >/tmp/demo2.log 2>&1; then res="$res demo_without=pass"; else res="$res demo_without=FAIL(!)"; fi
